@@ -444,6 +444,8 @@ def report_count(run, spec, results, failing, corr_broken, broken, stats, skippe
             r, sigs = extra_fail
             run.violation(dict(kind='implementation', signatures=sigs, minimal=describe(r), observed=r.impl[:4000],
                                oracles_on_implementation=r.impl_or, found_by='targeted search after a broken correspondence'))
+        elif corr_broken and spec.get('prescribed_quota') and prescribed_quota_search(run, spec, corr_broken):
+            pass
         elif corr_broken and spec.get('model_is_spec'):
             # C03: the property *is* "the history is the one the published procedure prescribes", and the Lean model is the
             # formalised procedure, so an input on which the two histories differ is the failing input
@@ -530,6 +532,38 @@ def targeted_search(run, spec, corr_broken, rng):
     return None
 
 
+def prescribed_quota_search(run, spec, corr_broken):
+    """C05 after a broken correspondence: where the count used a quota other than the one the (proved) model prescribes for the same
+    election, judge the implementation's record with the prescribed quota - "more than k quotas" in the property means the rule's quota,
+    not whatever figure a changed formula produced.  Only used to turn an already reported violation into a failing input."""
+    cand = []
+    for r in corr_broken[:600]:
+        if not (r.impl.startswith('OK ') and (r.model_line or '').startswith('OK ')):
+            continue
+        ma, ia = parse_line(r.model_line), parse_line(r.impl)
+        if not ma or not ia or ma[0]['quota'] == ia[0]['quota']:
+            continue
+        mq = ma[0]['quota']
+        acts = []
+        for a in r.impl[3:].split(' | '):
+            t = a.split(' ')
+            t[4] = mq
+            acts.append(' '.join(t))
+        cand.append((r, mq, ia[0]['quota'], 'OK ' + ' | '.join(acts)))
+    if not cand:
+        return False
+    outs = common.run_driver_parallel(['COUNT ' + r.case + ' @@ ' + line for r, _, _, line in cand])
+    run.coverage['rejudged_with_prescribed_quota'] = len(cand)
+    for (r, mq, iq, _), g in zip(cand, outs):
+        m = campaign.ORACLE_RE.match(g)
+        if m and campaign.parse_kv(m.group(2)).get(spec['keys'][0]) != '1':
+            run.violation(dict(kind='implementation', signatures=['%s judged with the prescribed quota' % spec['keys'][0]],
+                               minimal=describe(r), observed=r.impl[:4000], prescribed_quota_raw=mq, quota_used_by_the_count_raw=iq,
+                               found_by='the count used a quota other than the prescribed one; its result was judged with the prescribed quota'))
+            return True
+    return False
+
+
 def known_text(fid):
     for f in findings.load():
         if f['id'] == fid:
@@ -609,7 +643,7 @@ def C09(run):
 def C05(run):
     # crash=True: a count that dies where the model completes elects nobody, so the coalition is not represented
     count_property(run, dict(rules=ALL, keys=['C05'], crash=True, proj=proj_C05, quick=6000, thorough=150000, equal_ranks=0.0,
-                             families=['coalitions', 'coalitions', 'majority', 'plain', 'chains', 'on_quota']))
+                             prescribed_quota=True, families=['coalitions', 'coalitions', 'majority', 'plain', 'chains', 'on_quota']))
     run.coverage['explanation'] = ('theorem: the one-seat majority case (lean/Props/C05.lean); the general k-quota claim is explored only: '
                                    'the compiled Lean predicate okC05 enumerates every candidate subset on the record of every generated election')
 
